@@ -7,7 +7,7 @@ STRUCT_WEIGHTS = {
     "create_feature": 2, "create_source": 3, "create_section": 4, "append_dim": 3,
     "set_attr": 10, "set_dim": 3, "link_append": 6, "link_remove": 3, "set_metadata": 3,
     "del_metadata": 1, "set_role": 2, "delete": 4, "link_dim": 2, "delete_dims": 0.5,
-    "restart": 3,
+    "restart": 3, "create_property": 3, "prop_values": 3, "sec_dict": 1, "set_odml": 0.5,
 }
 
 
@@ -20,6 +20,103 @@ class C02(Profile):
 
     def tune_knobs(self, k, rng):
         k["max_extent"] = min(k["max_extent"], 4)
+
+
+class C10(Profile):
+    prop = "C10"
+    name = "C10"
+    weights = {"create_section": 3, "create_property": 6, "prop_values": 14, "set_attr": 4, "set_odml": 1,
+               "sec_dict": 8, "delete": 2, "restart": 3}
+    owned = ("state_", "reopen_", "missing_refusal", "wrong_error_class", "refused_changed_values",
+             "sec_dict_mismatch", "unexpected_error", "create_result")
+    never_off = ("restart", "create_section", "create_property", "prop_values")
+
+    def tune_knobs(self, k, rng):
+        k["set_kinds"] = ["prop", "section"]
+        k["delete_kinds"] = ["prop", "section"]
+        k["max_per"] = rng.randint(2, 8)
+        k["n_ops"] = rng.randint(10, 45)
+
+
+class C03(Profile):
+    prop = "C03"
+    name = "C03"
+    weights = {"create_block": 3, "create_group": 4, "create_array": 4, "create_tag": 3, "create_mtag": 2,
+               "create_feature": 2, "create_source": 5, "create_section": 5, "create_property": 4,
+               "link_append": 5, "link_remove": 3, "delete": 9, "restart": 3}
+    owned = ("container_agreement", "id_unique", "missing_refusal", "wrong_error_class", "unexpected_error",
+             "create_result", "lookup_failed", "lookup_wrong_entity", "reopen_failed")
+    reopen_introspect = False
+    never_off = ("restart", "delete")
+
+    def owns(self, oracle, site, cls):
+        if oracle == "unexpected_error":
+            # legal names are accepted; an entity can be deleted through its name / id / position
+            return site.startswith("create_") or (site.startswith("delete_") and not site.endswith(":obj"))
+        return Profile.owns(self, oracle, site, cls)
+
+    def tune_knobs(self, k, rng):
+        pool = list(P.NAMES_ORDER)
+        if not self.masked("uuid_like_names") and rng.random() < 0.5:
+            pool += P.NAMES_UUIDLIKE
+        if rng.random() < 0.15:
+            pool += P.NAMES_LONG
+        if not self.masked("dotdot_name") and rng.random() < 0.3:
+            pool += [".."]
+        rng.shuffle(pool)
+        k["names"] = pool[:rng.randint(4, len(pool))]
+        k["dup_rate"] = P.pick(rng, [0.1, 0.25, 0.4])
+        k["max_per"] = rng.randint(2, 8)
+        k["max_branch"] = rng.randint(2, 5)
+        k["dtypes"] = ["int32", "float64"]
+        k["max_extent"] = 2
+        k["walk_every"] = P.pick(rng, [1, 1, 2, 3])
+        k["vias"] = [0, 1, 2, 3, 4, 6, 7]
+
+    def after_op(self, run, op, res):
+        from .ops_struct import check_all_containers, check_ids_unique
+        k = run.knobs["walk_every"] or 1
+        if run.step % k == 0 or op["op"] in ("restart", "delete"):
+            check_all_containers(run, op["op"])
+            check_ids_unique(run, op["op"])
+
+    def at_end(self, run):
+        from .ops_struct import check_all_containers, check_ids_unique
+        check_all_containers(run, "end")
+        check_ids_unique(run, "end")
+
+
+class C04(Profile):
+    prop = "C04"
+    name = "C04"
+    weights = {"create_block": 2, "create_group": 4, "create_array": 4, "create_tag": 3, "create_mtag": 3,
+               "create_feature": 3, "create_source": 5, "create_section": 5, "create_property": 2,
+               "append_dim": 2, "link_dim": 2, "link_append": 14, "set_metadata": 7, "set_role": 3,
+               "delete": 10, "link_remove": 5, "del_metadata": 3, "restart": 1}
+    DEL_SITES = ("delete", "link_remove", "del_metadata")
+    late_ops = ("delete", "link_remove", "del_metadata", "restart")
+    build_fraction = 0.6
+    reopen_introspect = False
+    never_off = ("restart", "delete", "link_append")
+
+    def owns(self, oracle, site, cls):
+        if oracle.startswith("state_"):
+            return site in self.DEL_SITES
+        if oracle == "unexpected_error":
+            return site.startswith(("delete_", "link_remove", "del_metadata"))
+        return False
+
+    def tune_knobs(self, k, rng):
+        k["names"] = list(P.NAMES_TREE) + rng.sample(P.NAMES_PLAIN, 3)
+        k["dup_rate"] = 0.05
+        k["walk_every"] = 1
+        k["max_blocks"] = rng.randint(1, 3)
+        k["max_per"] = rng.randint(2, 5)
+        k["max_branch"] = rng.randint(1, 3)
+        k["max_depth"] = rng.randint(2, 4)
+        k["dtypes"] = ["int16", "float64", "str"]
+        k["max_extent"] = 3
+        k["n_ops"] = rng.randint(15, 50)
 
 
 PROFILES = {}
@@ -35,3 +132,6 @@ def register(p):
 
 
 register(C02())
+register(C10())
+register(C03())
+register(C04())
